@@ -10,7 +10,7 @@ from refpgp import keys as rkeys, sig as rsig, wire, enc as renc, msg as rmsg
 FLAGSETS = [('absent', None), ('C', 0x01), ('S', 0x02), ('E', 0x04), ('Es', 0x08), ('A', 0x20), ('SE', 0x06), ('all', 0x2F), ('none', 0x00)]
 PRIMARY_SETS = [('absent', None), ('C', 0x01), ('CS', 0x03), ('CSE', 0x07), ('E', 0x04), ('all', 0x2F), ('none', 0x00), ('S', 0x02)]
 NEED = {'sign': 0x02, 'certify': 0x01, 'encrypt': 0x0C}
-PRIM, SUBS = 'rsa1024a', ['rsa1024b', 'rsa2048b']
+PRIM, SUBS = 'rsa1024a', ['rsa1024b', 'rsa2048b', 'rsa2048a']
 PW = 'usage passphrase'
 
 
@@ -76,7 +76,7 @@ class Prop(object):
     CASE_TIMEOUT = 1500
 
     def bound(self, tier):
-        return {'subkeys': '0..2', 'flag_sets': len(FLAGSETS)}
+        return {'subkeys': '0..2' if tier == 'quick' else '0..3', 'flag_sets': len(FLAGSETS)}
 
     def units(self, tier, seed):
         u = []
@@ -85,6 +85,12 @@ class Prop(object):
             u.append(('configs', {'p': pi, 'nsub': 1}))
             for a in range(len(FLAGSETS)):
                 u.append(('configs', {'p': pi, 'nsub': 2, 'first': a}))
+        if tier == 'thorough':
+            # three subkeys: full product of subkey flag sets under three primary flag sets
+            for pi in (0, 2, 4):
+                for a in range(len(FLAGSETS)):
+                    for b in range(len(FLAGSETS)):
+                        u.append(('configs', {'p': pi, 'nsub': 3, 'first': a, 'second': b}))
         for a in range(len(FLAGSETS)):
             u.append(('newer', {'old': a}))
         u.append(('users', {}))
@@ -201,8 +207,10 @@ class Prop(object):
             combos = [()]
         elif case['nsub'] == 1:
             combos = [(a,) for a in range(len(FLAGSETS))]
-        else:
+        elif case['nsub'] == 2:
             combos = [(case['first'], b) for b in range(len(FLAGSETS))]
+        else:
+            combos = [(case['first'], case['second'], c) for c in range(len(FLAGSETS))]
         for combo in combos:
             if case.get('only') is not None and list(combo) != case['only']:
                 continue
